@@ -36,7 +36,13 @@ import (
 func init() { commands["faults5"] = faults5Run }
 
 // fqBackoffGaps judges the call log of one plan of faults.go (calls carry the time of ENTRY; a failed call returns at once).
-func fqBackoffGaps(calls []fqCall, retry time.Duration, plan fqPlan) (viol []string, failures int) {
+// early = how many early retries were seen. One or two in a whole plan can be the trace of a stale timer tick rather than of a missing
+// back-off: with go.mod's `go 1.21` timer channels are asynchronous, and when the loop is interrupted at the very moment its timer
+// expires, `timer.Stop()` already answers false while the runtime has not yet put the tick into the channel; the non-blocking drain
+// then finds nothing, the tick arrives afterwards and ends the NEXT wait at once (seen once in about 60 loaded runs: a failing Size()
+// followed 5 µs later by a Pop()). The caller therefore gives up to two early retries a second opinion (the plan again, alone: a
+// missing back-off reproduces, a runtime race does not) and reports three or more at once.
+func fqBackoffGaps(calls []fqCall, retry time.Duration, plan fqPlan) (viol []string, failures int, early int) {
 	// After a loop-side call has failed with the injected error — Pop() / Push(), and since the repair of finding F4 also Size() / Head() —
 	// the loop's next queue call of ANY kind (the Size() at the top of an iteration included: the back-off deadline is tested before it
 	// is asked) comes no sooner than RetryInterval - 1 ms, whatever interrupts arrive in between.
@@ -65,7 +71,7 @@ func fqBackoffGaps(calls []fqCall, retry time.Duration, plan fqPlan) (viol []str
 	if n > 0 {
 		viol = append(viol, fmt.Sprintf("C15 a failing queue is retried faster than once per RetryInterval: %s, RetryInterval is %v (%d such retries in this plan; no back-off after the failure) (%s)", first, retry, n, plan))
 	}
-	return viol, failures
+	return viol, failures, n
 }
 
 // ---- stand-alone: write side down, several jobs due at once ----
